@@ -9,19 +9,19 @@ def showNet : Net → String | .Mainnet => "Mainnet" | .Testnet => "Testnet" | .
 def showKind : Kind → String | .Standard => "Standard" | .Integrated => "Integrated" | .SubAddress => "SubAddress"
 def showAddrType : Option (Kind × Bytes) → String
   | none => "err" | some (k, pid) => if k = .Integrated then s!"ok Integrated {Hex.encode pid}" else s!"ok {showKind k}"
-/-- address-type lookup by the book: the first byte must be a tag of the requested network -/
-def specAddrType (net : Net) (b : Bytes) : Option (Kind × Bytes) :=
-  match b with
-  | [] => none
-  | t :: _ => match Spec.untag t.toNat with
-    | some (n, k) => if n ≠ net then none else if k = .Integrated then (if b.length < 73 then none else some (k, (b.drop 65).take 8)) else some (k, [])
-    | none => none
+/-- address-type lookup by the book: `Spec.addrType` (Spec/Tags.lean; `C20_type_total` proves the model equal to it) -/
+def specAddrType (net : Net) (b : Bytes) : Option (Kind × Bytes) := Spec.addrType net b
 
 def stepC20 : Step := fun toks =>
   match toks with
   | ["net_tag", n, k] => do
     let n ← netOfStr n; let k ← kindOfStr k
     pure ((match asU8 n k with | some t => toString t | none => "err"), toString (Spec.tag n k))
+  | ["net_tag", n, "Integrated", pid] => do
+    -- the payment id carried by `Integrated` is an argument of `as_u8`; neither the model nor the book looks at it
+    let n ← netOfStr n
+    if (Hex.decode pid).length ≠ 8 then none else
+    pure ((match asU8 n .Integrated with | some t => toString t | none => "err"), toString (Spec.tag n .Integrated))
   | ["net_of", b] => do
     let b ← b.toNat?
     pure ((match fromU8 b with | some n => "ok " ++ showNet n | none => "err"), (match Spec.untag b with | some (n, _) => "ok " ++ showNet n | none => "err"))
